@@ -175,7 +175,7 @@ func (bs *blockState) applyContractX(spec *FuncSpec, key string, args []Val, ins
 	short := key[strings.Index(key, ".")+1:]
 	e.callOrd[short]++
 	site := fmt.Sprintf("call.%s#%d", short, e.callOrd[short])
-	if e.spec != nil {
+	if e.spec != nil && key != "builtin.recv" && key != "builtin.send" {
 		if alt, ok := e.spec.CallSites[fmt.Sprintf("%s#%d", short, e.callOrd[short])]; ok {
 			as := e.W.Specs.Funcs[alt]
 			if as == nil {
@@ -228,6 +228,16 @@ func (bs *blockState) applyContractX(spec *FuncSpec, key string, args []Val, ins
 	e.items = append(e.items, Item{Kind: IAssert, Guard: bs.g, Term: "false", Name: fmt.Sprintf("%s#canary.before.%s", e.key, site), Canary: true, Class: "canary-before", Pos: bs.posOf(ins), Blk: bs.b})
 	// havoc what the callee may modify
 	bs.havocModifies(spec, vars, ins)
+	// a closure may assign the captured variables it writes (no modifies item names them)
+	for n, x := range extra {
+		if x.lv != nil && x.writes {
+			hv := e.freshVal("cap."+n, x.lv.typ)
+			bs.assumeG(e.typeFacts(hv))
+			bs.assumeG(e.inputBound(hv))
+			bs.assumeG(e.allocatedFacts(bs.st, hv))
+			bs.storeTo(*x.lv, hv, ins)
+		}
+	}
 	var res Val
 	post := &Ctx{E: e, Vars: map[string]Val{}, St: bs.st, where: e.key + " " + site + " ensures"}
 	for k, v := range vars {
@@ -289,11 +299,15 @@ func (bs *blockState) applyContractX(spec *FuncSpec, key string, args []Val, ins
 		}
 		cres := bs.applyClosure(mc, cargs, ins, crt, nil)
 		if crt != nil && resT != nil && len(cres.C) == len(res.C) {
-			bs.assumeG(valEq(res, cres))
+			if spec.CommitMayFail {
+				bs.assumeG(imp(not(eq(cres.C[0], "0")), valEq(res, cres)))
+			} else {
+				bs.assumeG(valEq(res, cres))
+			}
 			for k, old := range saved {
-				cur := bs.st.m[k]
+				cur := e.heapKey(bs.st, k, e.sortOfKey(k))
 				nv := e.fresh("rb."+k, e.sortOfKey(k))
-				e.def(eq(nv, ite(eq(cres.C[0], "0"), cur, old)))
+				e.def(eq(nv, ite(eq(res.C[0], "0"), cur, old)))
 				bs.st.m[k] = nv
 			}
 		}
